@@ -38,6 +38,8 @@ def shards(tier, seed):
         if L >= 1000:   # long segments: one shard per psll
             for psll in PSLL:
                 out.append({"part": "sin", "Ls": [L], "psll": [psll]})
+    # one bin with more than 2^25 gathered samples on the NumPy backend (1535 half-overlapping segments of 65536 samples)
+    out.append({"part": "sin1", "L": 65536, "psll": 200.0, "b": 12345.3, "phi": 0.7, "A": 1.0, "fs": 1.0, "order": -1, "N": 65536 * 768, "backend": "numpy", "Ls": [65536]})
     for N in (24, 64):
         for sch in ("ltf", "vectorized_ltf"):
             for win in ("kaiser200", "hann", "custom"):
@@ -84,7 +86,7 @@ def _sin_cases(cases):
         n = np.arange(N)
         x = A * np.cos(2 * np.pi * b * n / L + phi)
         try:
-            an = ana.make_analyzer(x, fs, win="kaiser", psll=psll, order=order, olap=0.5, backend="numba")
+            an = ana.make_analyzer(x, fs, win="kaiser", psll=psll, order=order, olap=0.5, backend=c.get("backend", "numba"))
             r = an.compute_single_bin(f0, L=L)
             ps = float(r.ps[0])
             enbw = float(r.ENBW[0])
